@@ -300,6 +300,31 @@ pub fn handle_pexpire(storage: &Arc<StorageEngine>, db: usize, parts: &[RespFram
     Ok(RespFrame::Integer(if result { 1 } else { 0 }))
 }
 
+/// Handle PEXPIREAT command - Set the deadline of a key as a Unix time in milliseconds
+pub fn handle_pexpireat(storage: &Arc<StorageEngine>, db: usize, parts: &[RespFrame]) -> Result<RespFrame> {
+    if parts.len() != 3 {
+        return Ok(RespFrame::error("ERR wrong number of arguments for 'pexpireat' command"));
+    }
+    
+    let key = match &parts[1] {
+        RespFrame::BulkString(Some(bytes)) => bytes.as_ref(),
+        _ => return Ok(RespFrame::error("ERR invalid key format")),
+    };
+    
+    let unix_millis = match &parts[2] {
+        RespFrame::BulkString(Some(bytes)) => {
+            match String::from_utf8_lossy(bytes).parse::<i64>() {
+                Ok(n) => n,
+                Err(_) => return Ok(RespFrame::error("ERR value is not an integer or out of range")),
+            }
+        }
+        _ => return Ok(RespFrame::error("ERR invalid milliseconds format")),
+    };
+    
+    let result = storage.pexpire_at(db, key, unix_millis)?;
+    Ok(RespFrame::Integer(if result { 1 } else { 0 }))
+}
+
 /// Handle PTTL command - Get TTL in milliseconds
 pub fn handle_pttl(storage: &Arc<StorageEngine>, db: usize, parts: &[RespFrame]) -> Result<RespFrame> {
     if parts.len() != 2 {
